@@ -1,27 +1,12 @@
 (* Tie_C05_ens_33.v -- GENERATED ONCE by harness/gen_tie_C05_ens.py and committed.
-   Exact ensemble covariance of Stokes parameters 3 and 3 of one superposed instance. *)
+   Exact ensemble covariance of Stokes parameters 3 and 3 of one superposed instance: Eq. 42-43 for one instance, C = C_A + C_B + M(A,B) + M(A,B)^T, M = Minkowski::outer. *)
 From Coq Require Import Reals Lra List.
-From Epsic Require Import Scalar SpecPauli Quadrature Quadrature8 Gen_C05 Tie_C05_ens.
+From Epsic Require Import Scalar SpecPauli Quadrature Quadrature8 Gen_C05 Tie_C05_ens Tie_C05_ens_33_a Tie_C05_ens_33_b.
 Import ListNotations.
 Local Open Scope R_scope.
 Ltac ens := pose proof r3_sq as H; unfold partA, partB, F0, F1, F2, F3, SA, SB, E4, E1, Smean, mink_outer_spec, mink_inner_spec, eta;
   cbn [v4nth v0 v1 v2 v3 Nat.eqb]; autounfold with gen; ops_R; field_simplify_eq; ring [H].
 
-Lemma covA_33 ra0 ra1 ra2 ra3 rb0 rb1 rb2 rb3 :
-  E4 (fun p0 p1 p2 p3 => partA (F3 ra0 ra1 ra2 ra3 rb0 rb1 rb2 rb3) p0 p1 p2 p3 * partA (F3 ra0 ra1 ra2 ra3 rb0 rb1 rb2 rb3) p0 p1 p2 p3) - E4 (partA (F3 ra0 ra1 ra2 ra3 rb0 rb1 rb2 rb3)) * E4 (partA (F3 ra0 ra1 ra2 ra3 rb0 rb1 rb2 rb3))
-  = mink_outer_spec (SA ra0 ra1 ra2 ra3 rb0 rb1 rb2 rb3) (SA ra0 ra1 ra2 ra3 rb0 rb1 rb2 rb3) 3 3.
-Proof. ens. Qed.
-Lemma covB_33 ra0 ra1 ra2 ra3 rb0 rb1 rb2 rb3 :
-  E4 (fun q0 q1 q2 q3 => partB (F3 ra0 ra1 ra2 ra3 rb0 rb1 rb2 rb3) q0 q1 q2 q3 * partB (F3 ra0 ra1 ra2 ra3 rb0 rb1 rb2 rb3) q0 q1 q2 q3) - E4 (partB (F3 ra0 ra1 ra2 ra3 rb0 rb1 rb2 rb3)) * E4 (partB (F3 ra0 ra1 ra2 ra3 rb0 rb1 rb2 rb3))
-  = mink_outer_spec (SB ra0 ra1 ra2 ra3 rb0 rb1 rb2 rb3) (SB ra0 ra1 ra2 ra3 rb0 rb1 rb2 rb3) 3 3.
-Proof. ens. Qed.
-Lemma contraction_33 ra0 ra1 ra2 ra3 rb0 rb1 rb2 rb3 :
-  contraction (F3 ra0 ra1 ra2 ra3 rb0 rb1 rb2 rb3) (F3 ra0 ra1 ra2 ra3 rb0 rb1 rb2 rb3) = mink_outer_spec (SA ra0 ra1 ra2 ra3 rb0 rb1 rb2 rb3) (SB ra0 ra1 ra2 ra3 rb0 rb1 rb2 rb3) 3 3 + mink_outer_spec (SA ra0 ra1 ra2 ra3 rb0 rb1 rb2 rb3) (SB ra0 ra1 ra2 ra3 rb0 rb1 rb2 rb3) 3 3.
-Proof.
-  unfold contraction, coef, unit4, F0, F1, F2, F3, SA, SB, Smean, mink_outer_spec, mink_inner_spec, eta. cbn [v4nth v0 v1 v2 v3 Nat.eqb].
-  autounfold with gen; ops_R. field.
-Qed.
-(* Eq. 42-43 for one instance: C = C_A + C_B + M(A,B) + M(A,B)^T, M = Minkowski::outer *)
 Theorem ens_sup_cov_33 ra0 ra1 ra2 ra3 rb0 rb1 rb2 rb3 :
   E8 (fun p0 p1 p2 p3 q0 q1 q2 q3 => F3 ra0 ra1 ra2 ra3 rb0 rb1 rb2 rb3 p0 p1 p2 p3 q0 q1 q2 q3 * F3 ra0 ra1 ra2 ra3 rb0 rb1 rb2 rb3 p0 p1 p2 p3 q0 q1 q2 q3) - E8 (F3 ra0 ra1 ra2 ra3 rb0 rb1 rb2 rb3) * E8 (F3 ra0 ra1 ra2 ra3 rb0 rb1 rb2 rb3)
   = mink_outer_spec (SA ra0 ra1 ra2 ra3 rb0 rb1 rb2 rb3) (SA ra0 ra1 ra2 ra3 rb0 rb1 rb2 rb3) 3 3 + mink_outer_spec (SB ra0 ra1 ra2 ra3 rb0 rb1 rb2 rb3) (SB ra0 ra1 ra2 ra3 rb0 rb1 rb2 rb3) 3 3
